@@ -87,4 +87,4 @@ def register(reg):
                         ghost_pre=['hdr0 = self.g_header_sent'],
                         modifies=['self.g_notified', 'self.g_header_sent']),
         },
-        tier='thorough', props=['C07'])
+        shard_depth=6, feas_timeout_ms=250, props=['C07'])
